@@ -12,6 +12,7 @@ from rvproof.contract import contract
 from . import common as K
 from . import links as L
 
+TECHNIQUE = "contract-based deductive verification of range containment for every target span with an exact rational float model (z3); quantisation / non-default curves / monotonicity as labelled bounded stand-in"
 LEVEL = "other"
 LEVEL_TEXT = (
     "Mixed. Deductive (for all inputs 0..32768, all gains 0..1024, all windows in both orientations at once): range containment and "
